@@ -539,6 +539,13 @@ theorem flushLoop_chain (ρ : Nat → Reply) (ok : OutKind) (name : Option Strin
 theorem flushio_inv (ρ : Nat → Reply) {s : St} (ok : OutKind) (name : Option String) (h : Inv s) :
     Inv (flushio ρ s ok name).1 := flushLoop_inv ρ ok name _ s false h
 
+theorem nextReq_inv (ρ : Nat → Reply) {s : St} (x : Strm) (h : Inv s) : Inv (nextReq ρ s x).1 := by
+  unfold nextReq
+  split
+  · exact h.emit_neutral rfl
+  · exact h.emit_neutral_modify (e := .nx x.sid x.key .eof) rfl _ _ (fun _ => rfl) (fun _ h => h)
+  · next k _ => exact h.rearmed x.sid k
+
 theorem nextioWrite_inv (ρ : Nat → Reply) {s : St} (ok : OutKind) (name : String) (h : Inv s) :
     Inv (nextioWrite ρ s ok name).1 := by
   unfold nextioWrite
@@ -549,8 +556,7 @@ theorem nextioWrite_inv (ρ : Nat → Reply) {s : St} (ok : OutKind) (name : Str
     · exact h
     · split
       · exact h.emit_neutral rfl
-      · exact h.emit_neutral_modify (e := .nx x.sid x.key .eof) rfl _ _ (fun _ => rfl) (fun _ h => h)
-      · next k _ => exact h.rearmed x.sid k
+      · exact nextReq_inv ρ x (h.emit_neutral rfl)
 
 /-- a half close is only ever chosen for a two-way pipe with both ends open -/
 theorem closeMode_half {opt : Option Bool} {x : Strm} {m : Rwc} (h : closeMode opt x = some m) (hne : m ≠ .full) :
@@ -561,32 +567,47 @@ theorem closeMode_half {opt : Option Bool} {x : Strm} {m : Rwc} (h : closeMode o
   | some o =>
     cases o <;> cases hs : x.rwcstate <;> cases hm : x.key.mask <;> simp_all
 
+theorem preFlush_inv (ρ : Nat → Reply) {s : St} (x : Strm) (h : Inv s) : Inv (preFlush ρ s x).1 := by
+  unfold preFlush
+  split
+  · exact h.emit_neutral rfl
+  · exact h
+
+theorem preFlush_chain (ρ : Nat → Reply) (s : St) (x : Strm) : (preFlush ρ s x).1.chain = s.chain := by
+  unfold preFlush
+  split <;> rfl
+
+theorem closeReq_inv (ρ : Nat → Reply) {s : St} (name : String) (opt : Option Bool) (x : Strm) (ffail : Bool)
+    (hx : s.chain.find? (closeHit name opt) = some x) (h : Inv s) : Inv (closeReq ρ s name opt x ffail).1 := by
+  unfold closeReq
+  simp only
+  split
+  · refine h.emit_neutral ?_
+    simp [Ev.neutral]
+  · split
+    · next hc =>
+      refine h.emit_neutral_modify (e := .cl x.sid x.key ((closeMode opt x).getD .full) true false) ?_ _ _ (fun _ => rfl) (fun _ h => h)
+      simp [Ev.neutral, hc.2.2]
+    · next hc =>
+      by_cases hm : (closeMode opt x).getD .full = .full
+      · rw [hm]
+        exact h.closed hx true false rfl
+      · -- a half close that removes the node does not occur
+        exfalso
+        apply hc
+        cases hcm : closeMode opt x with
+        | none => simp [hcm] at hm
+        | some m =>
+          simp only [hcm, Option.getD_some] at hm ⊢
+          exact ⟨(closeMode_half hcm hm).1, (closeMode_half hcm hm).2, hm⟩
+
 theorem closeio_inv (ρ : Nat → Reply) {s : St} (name : String) (opt : Option Bool) (h : Inv s) :
     Inv (closeio ρ s name opt).1 := by
   unfold closeio
   split
   · exact h
   · next x hx =>
-    simp only
-    split
-    · refine h.emit_neutral ?_
-      simp [Ev.neutral]
-    · split
-      · next hc =>
-        refine h.emit_neutral_modify (e := .cl x.sid x.key ((closeMode opt x).getD .full) true false) ?_ _ _ (fun _ => rfl) (fun _ h => h)
-        simp [Ev.neutral, hc.2.2]
-      · next hc =>
-        by_cases hm : (closeMode opt x).getD .full = .full
-        · rw [hm]
-          exact h.closed hx true false rfl
-        · -- a half close that removes the node does not occur
-          exfalso
-          apply hc
-          cases hcm : closeMode opt x with
-          | none => simp [hcm] at hm
-          | some m =>
-            simp only [hcm, Option.getD_some] at hm ⊢
-            exact ⟨(closeMode_half hcm hm).1, (closeMode_half hcm hm).2, hm⟩
+    exact closeReq_inv ρ name opt x _ (by rw [preFlush_chain]; exact hx) (preFlush_inv ρ x h)
 
 end Hawk.Rio
 
@@ -823,6 +844,11 @@ theorem flushLoop_delivered (ρ : Nat → Reply) (ok : OutKind) (name : Option S
       · rw [ih]; simp [Ev.slice]
     · exact ih _ _
 
+theorem nextReq_delivered (ρ : Nat → Reply) (s : St) (x : Strm) (k : Key) :
+    delivered k (nextReq ρ s x).1.log = delivered k s.log := by
+  unfold nextReq
+  split <;> simp [Ev.slice]
+
 theorem nextioWrite_delivered (ρ : Nat → Reply) (s : St) (ok : OutKind) (name : String) (k : Key) :
     delivered k (nextioWrite ρ s ok name).1.log = delivered k s.log := by
   unfold nextioWrite
@@ -830,17 +856,29 @@ theorem nextioWrite_delivered (ρ : Nat → Reply) (s : St) (ok : OutKind) (name
   · rfl
   · split
     · rfl
-    · split <;> simp [Ev.slice]
+    · split
+      · simp [Ev.slice]
+      · rw [nextReq_delivered]; simp [Ev.slice]
+
+theorem preFlush_delivered (ρ : Nat → Reply) (s : St) (x : Strm) (k : Key) :
+    delivered k (preFlush ρ s x).1.log = delivered k s.log := by
+  unfold preFlush
+  split <;> simp [Ev.slice]
+
+theorem closeReq_delivered (ρ : Nat → Reply) (s : St) (name : String) (opt : Option Bool) (x : Strm) (ffail : Bool)
+    (k : Key) : delivered k (closeReq ρ s name opt x ffail).1.log = delivered k s.log := by
+  unfold closeReq
+  simp only
+  split
+  · simp [Ev.slice]
+  · split <;> simp [Ev.slice]
 
 theorem closeio_delivered (ρ : Nat → Reply) (s : St) (name : String) (opt : Option Bool) (k : Key) :
     delivered k (closeio ρ s name opt).1.log = delivered k s.log := by
   unfold closeio
   split
   · rfl
-  · simp only
-    split
-    · simp [Ev.slice]
-    · split <;> simp [Ev.slice]
+  · rw [closeReq_delivered, preFlush_delivered]
 
 theorem readLoop_delivered (ρ : Nat → Reply) (con : Bool) (sid : Nat) (key : Key) (fuel : Nat) (eof : Bool) (s : St)
     (k : Key) : delivered k (readLoop ρ con sid key fuel eof s).1.log = delivered k s.log := by
@@ -954,23 +992,29 @@ theorem nextioWrite_noFlags {ρ : Nat → Reply} (hρ : AllAccept ρ) {s : St} (
   · next x hx =>
     split
     · exact hn
-    · obtain ⟨k, hk⟩ := hρ s.calls
-      simp only [hk]
-      exact hn.modify (hasKey x.key) (fun y => { y with outEof := false }) (fun x h => ⟨rfl, h.2⟩) rfl
+    · split
+      · exact hn.same rfl
+      · unfold nextReq
+        obtain ⟨k, hk⟩ := hρ (s.emit (.fl x.sid x.key true)).calls
+        simp only [hk]
+        exact hn.modify (hasKey x.key) (fun y => { y with outEof := false }) (fun x h => ⟨rfl, h.2⟩) rfl
 
 theorem closeio_noFlags (ρ : Nat → Reply) {s : St} (hn : NoFlags s) (name : String) (opt : Option Bool) :
     NoFlags (closeio ρ s name opt).1 := by
   unfold closeio
   split
   · exact hn
-  · simp only
+  · next x hx =>
+    have hn0 : NoFlags (preFlush ρ s x).1 := hn.same (preFlush_chain ρ s x)
+    unfold closeReq
+    simp only
     split
-    · exact hn.same rfl
+    · exact hn0.same rfl
     · split
-      · refine hn.modify _ _ ?_ rfl
+      · refine hn0.modify _ _ ?_ rfl
         intro x h; exact h
       · intro y hy
-        exact hn y (List.mem_of_mem_eraseP hy)
+        exact hn0 y (List.mem_of_mem_eraseP hy)
 
 theorem readLoop_noFlags (ρ : Nat → Reply) (con : Bool) (sid : Nat) (key : Key) (fuel : Nat) (eof : Bool) {s : St}
     (hn : NoFlags s) : NoFlags (readLoop ρ con sid key fuel eof s).1 := by
@@ -1130,40 +1174,20 @@ theorem flushio_fail (ρ : Nat → Reply) (s : St) (ok : OutKind) (name : Option
     (FailedIn ρ s.calls (flushio ρ s ok name).1.calls → (flushio ρ s ok name).2 = .herr) :=
   flushLoop_fail ρ ok name _ s false
 
-theorem nextioWrite_fail (ρ : Nat → Reply) (s : St) (ok : OutKind) (name : String) :
-    s.calls ≤ (nextioWrite ρ s ok name).1.calls ∧
-    (FailedIn ρ s.calls (nextioWrite ρ s ok name).1.calls → (nextioWrite ρ s ok name).2 = -1) := by
-  unfold nextioWrite
+theorem nextReq_fail (ρ : Nat → Reply) (s : St) (x : Strm) :
+    s.calls ≤ (nextReq ρ s x).1.calls ∧
+    (FailedIn ρ s.calls (nextReq ρ s x).1.calls → (nextReq ρ s x).2 = -1) := by
+  unfold nextReq
   split
-  · exact ⟨Nat.le_refl _, fun _ => rfl⟩
-  · split
-    · exact ⟨Nat.le_refl _, fun h => absurd h FailedIn.empty⟩
-    · split
-      · exact ⟨by simp, fun _ => rfl⟩
-      · next hρ =>
-        refine ⟨by simp, fun h => ?_⟩
-        have := FailedIn.one (a := s.calls) (by simpa using h)
-        rw [this] at hρ; cases hρ
-      · next hρ =>
-        refine ⟨by simp, fun h => ?_⟩
-        have := FailedIn.one (a := s.calls) (by simpa using h)
-        rw [this] at hρ; cases hρ
-
-theorem closeio_fail (ρ : Nat → Reply) (s : St) (name : String) (opt : Option Bool) :
-    s.calls ≤ (closeio ρ s name opt).1.calls ∧
-    (FailedIn ρ s.calls (closeio ρ s name opt).1.calls → (closeio ρ s name opt).2 = -1) := by
-  unfold closeio
-  split
-  · exact ⟨Nat.le_refl _, fun _ => rfl⟩
-  · simp only
-    split
-    · exact ⟨by simp, fun _ => rfl⟩
-    · next hne =>
-      split
-      · refine ⟨by simp, fun h => ?_⟩
-        exact absurd (FailedIn.one (a := s.calls) (by simpa using h)) hne
-      · refine ⟨by simp, fun h => ?_⟩
-        exact absurd (FailedIn.one (a := s.calls) (by simpa using h)) hne
+  · exact ⟨by simp, fun _ => rfl⟩
+  · next hρ =>
+    refine ⟨by simp, fun h => ?_⟩
+    have := FailedIn.one (a := s.calls) (by simpa using h)
+    rw [this] at hρ; cases hρ
+  · next hρ =>
+    refine ⟨by simp, fun h => ?_⟩
+    have := FailedIn.one (a := s.calls) (by simpa using h)
+    rw [this] at hρ; cases hρ
 
 /-- prefix one non-failing call (number `a`) to a "fail ⇒ -1" fact -/
 theorem fail_step {ρ : Nat → Reply} {a : Nat} {r : St × Int} {s1 : St} (ha : s1.calls = a + 1) (hne : ρ a ≠ .fail)
@@ -1171,6 +1195,59 @@ theorem fail_step {ρ : Nat → Reply} {a : Nat} {r : St × Int} {s1 : St} (ha :
     a ≤ r.1.calls ∧ (FailedIn ρ a r.1.calls → r.2 = -1) := by
   refine ⟨by omega, fun hf => h.2 ?_⟩
   rw [ha]; exact FailedIn.first hf hne
+
+theorem nextioWrite_fail (ρ : Nat → Reply) (s : St) (ok : OutKind) (name : String) :
+    s.calls ≤ (nextioWrite ρ s ok name).1.calls ∧
+    (FailedIn ρ s.calls (nextioWrite ρ s ok name).1.calls → (nextioWrite ρ s ok name).2 = -1) := by
+  unfold nextioWrite
+  split
+  · exact ⟨Nat.le_refl _, fun _ => rfl⟩
+  · next x _ =>
+    split
+    · exact ⟨Nat.le_refl _, fun h => absurd h FailedIn.empty⟩
+    · split
+      · exact ⟨by simp, fun _ => rfl⟩
+      · next hne => exact fail_step (s1 := s.emit (.fl x.sid x.key true)) rfl hne (nextReq_fail ρ _ x)
+
+theorem closeReq_fail (ρ : Nat → Reply) (s : St) (name : String) (opt : Option Bool) (x : Strm) (ffail : Bool) :
+    s.calls ≤ (closeReq ρ s name opt x ffail).1.calls ∧
+    (ffail = true ∨ FailedIn ρ s.calls (closeReq ρ s name opt x ffail).1.calls → (closeReq ρ s name opt x ffail).2 = -1) := by
+  unfold closeReq
+  simp only
+  split
+  · exact ⟨by simp, fun _ => rfl⟩
+  · next hne =>
+    have hno : ¬ FailedIn ρ s.calls (s.calls + 1) := fun h => hne (FailedIn.one h)
+    split
+    · refine ⟨by simp, fun h => ?_⟩
+      rcases h with h | h
+      · simp [h]
+      · exact absurd (by simpa using h) hno
+    · refine ⟨by simp, fun h => ?_⟩
+      rcases h with h | h
+      · simp [h]
+      · exact absurd (by simpa using h) hno
+
+theorem closeio_fail (ρ : Nat → Reply) (s : St) (name : String) (opt : Option Bool) :
+    s.calls ≤ (closeio ρ s name opt).1.calls ∧
+    (FailedIn ρ s.calls (closeio ρ s name opt).1.calls → (closeio ρ s name opt).2 = -1) := by
+  unfold closeio
+  split
+  · exact ⟨Nat.le_refl _, fun _ => rfl⟩
+  · next x _ =>
+    have hc := closeReq_fail ρ (preFlush ρ s x).1 name opt x (preFlush ρ s x).2
+    have hp : s.calls ≤ (preFlush ρ s x).1.calls ∧
+        (FailedIn ρ s.calls (preFlush ρ s x).1.calls → (preFlush ρ s x).2 = true) := by
+      unfold preFlush
+      split
+      · refine ⟨by simp, fun h => ?_⟩
+        have := FailedIn.one (a := s.calls) (by simpa using h)
+        simp [this, Reply.isFail]
+      · exact ⟨Nat.le_refl _, fun h => absurd h FailedIn.empty⟩
+    refine ⟨Nat.le_trans hp.1 hc.1, fun h => hc.2 ?_⟩
+    rcases h.split (preFlush ρ s x).1.calls with h | h
+    · exact .inl (hp.2 h)
+    · exact .inr h
 
 theorem readLoop_fail (ρ : Nat → Reply) (con : Bool) (sid : Nat) (key : Key) (fuel : Nat) (eof : Bool) (s : St) :
     s.calls ≤ (readLoop ρ con sid key fuel eof s).1.calls ∧
@@ -1863,5 +1940,42 @@ theorem readio_fuel_mono (ρ : Nat → Reply) (fuel : Nat) (s : St) (ik : InKind
       unfold readRec at h ⊢
       simp only [Bool.false_eq_true, if_false] at h ⊢
       exact readLoop_fuel_mono _ _ _ _ _ _ _ h
+
+end Hawk.Rio
+
+namespace Hawk.Rio
+
+/-! ## the result of the final flush -/
+
+theorem flushallFails_allAccept {ρ : Nat → Reply} (hρ : AllAccept ρ) (l : List Strm) (c : Nat) :
+    flushallFails ρ l c = false := by
+  induction l generalizing c with
+  | nil => rfl
+  | cons x xs ih =>
+    obtain ⟨k, hk⟩ := hρ c
+    simp [flushallFails, hk, Reply.isFail, ih]
+
+/-- the FLUSH sent to the `i`-th node of the chain has call number `c + i`; if that node has a write side and
+the call fails, `hawk_rtx_flushallios` reports failure -/
+theorem flushallFails_of {ρ : Nat → Reply} {l : List Strm} {c i : Nat} {x : Strm} (hx : l[i]? = some x)
+    (hw : x.hasWriteSide = true) (hf : ρ (c + i) = .fail) : flushallFails ρ l c = true := by
+  induction l generalizing c i with
+  | nil => simp at hx
+  | cons y ys ih =>
+    cases i with
+    | zero =>
+      simp only [List.getElem?_cons_zero, Option.some.injEq] at hx
+      subst hx
+      simp [flushallFails, show ρ c = .fail by simpa using hf, Reply.isFail, hw]
+    | succ j =>
+      simp only [List.getElem?_cons_succ] at hx
+      have := ih (c := c + 1) (i := j) hx (by rw [← hf]; congr 1; omega)
+      simp [flushallFails, this]
+
+/-- call numbers of the final flush: the log of `flushallLoop` gains exactly one FLUSH per node, in chain order -/
+theorem flushallLoop_calls (ρ : Nat → Reply) (l : List Strm) (s : St) : (flushallLoop ρ l s).calls = s.calls + l.length := by
+  induction l generalizing s with
+  | nil => rfl
+  | cons x xs ih => unfold flushallLoop; rw [ih]; simp; omega
 
 end Hawk.Rio
